@@ -518,10 +518,30 @@ def r7(cx):
                     cx.violation(CONV, "conversion-arms:%s" % ch[0], "%s: expressions of kind %s are now converted into a statistics predicate; that conversion has not been checked for soundness "
                                  "(e.g. LIKE 'a_b%%' is not the range ['a_b', 'a_c'): `_` matches any character)" % (arm["sp"], ch[0]), [arm["sp"]])
         cx.floor("converted expression kinds", n, 4, CONV)
+    # exchanging the operands of a comparison mirrors the operator (swap); logical negation (negate) is a different operation: `c <= x` negated is `c > x`, i.e. x < c,
+    # which prunes the chunk whose minimum equals c
+    from engine import mir as M_
+    negs = [(k, c) for k, c in cx.prog.sites(lambda c: c.endswith("Operator::negate")) if k.startswith(("query::engine::", "query::streaming::"))]
+    if negs:
+        for k, c in negs:
+            cx.violation(k, "operand-exchange-uses-swap", "%s: the conversion turns an operator around with Operator::negate() (logical negation) - exchanging operands needs the mirror, "
+                         "Operator::swap(): `c <= x` becomes Gt instead of GtEq and a chunk whose end point equals c is pruned" % c["sp"], [c["sp"]])
+    else:
+        cx.passed(CONV, "operand-exchange-uses-swap", [], "no Operator::negate in the conversions")
     hs = cx.hir(SCAL)
     if hs is None:
         cx.violation(SCAL, "anchor-missing", "HIR not found", [])
         return
+    stop = H.tail(hs["tree"]) if hs["tree"].get("k") == "block" else hs["tree"]
+    if stop is not None and stop.get("k") == "match":
+        for arm in stop["arms"]:
+            for alt in H.pat_alts(arm["pat"]):
+                ch = [x.rsplit("::", 1)[-1] for x in H.pat_variant_chain(alt)]
+                if ch and ch[0] != "Literal":
+                    cx.violation(SCAL, "literal-kinds:%s" % ch[0], "%s: a %s expression is read as if it were the constant inside it: the operation it applies (a narrowing CAST turns 9.9 into 9) is not "
+                                 "applied to the pushed value, and chunks lying between the two are pruned" % (arm["sp"], ch[0]), [arm["sp"]])
+                elif ch:
+                    cx.passed(SCAL, "literal-kinds:%s" % ch[0], [arm["sp"]])
     n = 0
     for m in H.walk(hs["tree"]):
         if m.get("k") != "match" or "ScalarValue" not in (m.get("sty") or ""):
